@@ -19,13 +19,14 @@ pub fn spec() -> Spec {
     Spec {
         id: "C20",
         rule: "planar triangulated disks: jittered grids with random diagonals, triangle strips, fans with and without a centre vertex (convex and star-shaped outlines), L- and U-shaped grid regions; 1..5000 faces; \
-               vertex labels permuted, face order shuffled, index triples rotated, optionally all faces reversed; random scale 1e-2..1e2 and 3-D pose. Curved disks (height fields, spherical caps) for the invariance clauses. \
+               vertex labels permuted, face order shuffled, index triples rotated, optionally all faces reversed; random scale 1e-2..1e2 (one case in four 1e-7..1e5) and 3-D pose. Curved disks (height fields, spherical caps) for the invariance clauses. \
                Non-disks: closed box / sphere / torus, annulus, two separate disks, non-manifold fin, punctured torus, disk plus a closed component, two disks pinched at a vertex. \
                UV maps built from the flattening, queried with random (face, barycentric) surface points on and off the surface. Non-trivial = at least 4 faces; distinct = hash of face count, first vertex bits, pose bits.",
         assumptions: &[
             "edge-length tolerance (2e-6 + 2e-7 x D^2) x max(edge, mean edge), D = diameter of the vertex graph in edges: the code adds 1e-8 to the Laplacian diagonal, which perturbs the layout by up to 4e-8 x D^2 (measured on every family; 0.4% on an 800-face strip)",
             "input faces are consistently wound (the orientation clause is stated for such meshes)",
             "invariance is judged on pairwise distances (1e-9 x layout extent) and the orientation sign, i.e. up to a planar rigid motion",
+            "UV lookups are exercised at scales 1e-2..1e2 only (the dependency returns no normal for triangles with a doubled area below 2.2e-16)",
             "UV lookups: the angle test of uv_with_tol is disabled (max_angle = pi) for points on the surface, where the offset direction is rounding noise; normals are judged only for points at least 5% (barycentric) inside a face",
         ],
         streams: vec![
@@ -282,7 +283,12 @@ fn relabel(c: &mut Ctx, d: &Disk) -> (Disk, Vec<usize>) {
 }
 
 fn posed(c: &mut Ctx, d: &Disk) -> Disk {
-    let s = c.rng.log_range(1e-2, 1e2);
+    posed_in(c, d, true)
+}
+
+fn posed_in(c: &mut Ctx, d: &Disk, extreme_units: bool) -> Disk {
+    // mostly ordinary sizes; one case in four at a very small or very large length unit
+    let s = if extreme_units && c.rng.chance(0.25) { c.rng.log_range(1e-7, 1e5) } else { c.rng.log_range(1e-2, 1e2) };
     let t = gen::iso3(&mut c.rng, 3.0 * s);
     Disk { name: d.name, v: d.v.iter().map(|p| t * Point3::from(p.coords * s)).collect(), f: d.f.clone() }
 }
@@ -639,7 +645,9 @@ fn run_uv(c: &mut Ctx) {
     let curved = c.rng.chance(0.4);
     let base0 = make_disk(c, 300, curved);
     let (base0, _) = if c.rng.bool() { relabel(c, &base0) } else { (base0.clone(), vec![]) };
-    let d = posed(c, &base0);
+    // ordinary length units only: the UV lookups need face normals, which the dependency does not
+    // compute for triangles whose doubled area is below 2.2e-16 (edges of about 1e-8)
+    let d = posed_in(c, &base0, false);
     let nf = d.f.len();
     let class = if curved { "curved-disk" } else { "planar-disk" };
     c.family(&format!("uv-map/{}/{}", d.name, class_of(nf)));
